@@ -1,5 +1,5 @@
 (* driver for the C03 model: one case per line
-   run <known-path-cps> <card> <msgs> <partial> <eof> <ext> <ext_at|-1> <paused0> <policy> <fin> <nops> <op>* <nh> (<k-cps> <v-cps>)*
+   run <known-path-cps> <card> <msgs> <partial> <eof> <ext> <ext_at|-1> <paused0> <codec-subtype-cps> <policy> <fin> <nops> <op>* <nh> (<k-cps> <v-cps>)*
        card   = UU|US|SU|SS          ext = none|reset|close
        fin0   = ret | grpc:<code>:<msg> | exc | timeout | streamterm | protocol | base       msg = <cps> | ~ (None)
        fin    = <fin0> | wait        policy = H | S/<fin0>
@@ -7,7 +7,7 @@
    answer: <verdict>|<frames>|<results>|<end>|<accepted><well_formed>|<final status>
        verdict = abort:<i> | accept:<none|invalid|expired|valid>
        frames  = H:<end>:<k>/<v>;... | T:<end>:<k>/<v>;... | D | R      (space separated)
-   ct <cps>  -> 0|1     (content_type_ok)
+   ct <codec-cps> <cps>  -> 0|1     (content_type_ok)
 *)
 let split_on c s = String.split_on_char c s
 let opt_msg w = if w = "~" then None else Some (cps_of_string w)
@@ -42,12 +42,12 @@ let rec take n l = if n = 0 then ([], l) else match l with x :: r -> let (a, b) 
 let rec pairs = function k :: v :: r -> (cps_of_string k, cps_of_string v) :: pairs r | [] -> [] | _ -> failwith "odd headers"
 
 let show_headers hs = String.concat ";" (List.map (fun (k, v) -> string_of_cps k ^ "/" ^ string_of_cps v) hs)
-let show_frame f =
+let show_frame cs f =
   match f with
   | FData -> "D"
   | FRst -> "R"
-  | FHeaders _ -> (match render f with Some (hs, e) -> "H:" ^ word_of_bool e ^ ":" ^ show_headers hs | None -> "?")
-  | FTrailers _ -> (match render f with Some (hs, e) -> "T:" ^ word_of_bool e ^ ":" ^ show_headers hs | None -> "?")
+  | FHeaders _ -> (match render cs f with Some (hs, e) -> "H:" ^ word_of_bool e ^ ":" ^ show_headers hs | None -> "?")
+  | FTrailers _ -> (match render cs f with Some (hs, e) -> "T:" ^ word_of_bool e ^ ":" ^ show_headers hs | None -> "?")
 let show_res = function ROk -> "ok" | RRefused -> "refused" | RH2Err -> "h2err" | RMsg -> "msg" | REof -> "eof"
                       | RAssert -> "assert" | RCancelled -> "cancelled" | RError -> "error"
 let show_cause = function CReset -> "reset" | CClose -> "close" | CDeadline -> "deadline"
@@ -65,24 +65,25 @@ let show_verdict = function
   | VAccept t -> "accept:" ^ show_tclass t
 
 let handle = function
-  | "run" :: known :: card :: msgs :: partial :: eof :: ext :: ext_at :: paused0 :: policy :: fin :: nops :: rest ->
+  | "run" :: known :: card :: msgs :: partial :: eof :: ext :: ext_at :: paused0 :: codec :: policy :: fin :: nops :: rest ->
     let (ops, rest) = take (int_of_string nops) rest in
     let (_, hs) = take 1 rest in
     let e = { e_card = parse_card card; e_msgs = nat_of_int (int_of_string msgs);
               e_partial = bool_of_word partial; e_eof = bool_of_word eof; e_ext = parse_ext ext;
               e_ext_at = (let k = int_of_string ext_at in if k < 0 then None else Some (nat_of_int k));
-              e_paused0 = bool_of_word paused0 } in
+              e_codec = cps_of_string codec; e_paused0 = bool_of_word paused0 } in
+    let cs = cps_of_string codec in
     let p = { p_ops = List.map parse_op ops; p_fin = parse_fin fin; p_policy = parse_policy policy } in
     let r = run_call [cps_of_string known] (pairs hs) e p in
     let fs = (match final_status r.r_out with
               | None -> "-" | Some (g, m) -> string_of_int (int_of_z g) ^ ":" ^ show_opt_msg m) in
     String.concat "|" [ show_verdict r.r_verdict;
-                        String.concat " " (List.map show_frame r.r_out);
+                        String.concat " " (List.map (show_frame cs) r.r_out);
                         String.concat " " (List.map show_res r.r_results);
                         show_end r.r_end;
                         word_of_bool (accepted r.r_out) ^ word_of_bool (well_formed r.r_out);
                         fs ]
-  | ["ct"; v] -> word_of_bool (content_type_ok (cps_of_string v))
+  | ["ct"; c; v] -> word_of_bool (content_type_ok (cps_of_string c) (cps_of_string v))
   | _ -> failwith "unknown command"
 
 let () = main_loop handle
